@@ -31,6 +31,13 @@
  *    timezone, daylight, and the offsets localtime_r() reports for two fixed probe instants (localtime_r
  *    does not re-run tzset(), so a missing tzset() after restoring the variable is visible).
  *
+ * A cell does not stop at its first violation (one defect must not mask another); every key is reported once
+ * per cell.  Keys name the function, the clause and the input class, never the concrete input.
+ *
+ * Known on the unchanged tree (0.2.43): keys containing "before 1970" (range checks in valid_pil_lto_to_time /
+ * valid_pil_lto_validity_window compare against 0 where TIME_MIN is meant) and keys containing "(year < 1)"
+ * (is_leap_year() takes the year as unsigned).  Both disappear with mutants/C14/proposed-fix-*.diff.
+ *
  * Deviations from DESIGN.md C14
  *  - "|result - start| <= 184 days" is replaced by the calendar-month formulation above: the documented
  *    rule works on months, start 31 Jul / PIL 1 Jan is 211 days apart by design and would be a false alarm.
@@ -865,7 +872,7 @@ int main(int argc, char **argv)
         int th = mc_tier == MC_THOROUGH;
         off_stride = th ? 1 : 8;
         ref_stride = th ? 1 : 12;
-        class_mod = th ? 4 : 97;
+        class_mod = th ? 8 : 97;
 
         /* all-PIL combos */
         static const struct combo ac[] = {
